@@ -185,11 +185,14 @@ func newRaceReports() int {
 func purityExec(c Case) Event {
 	r := rand.New(rand.NewSource(int64(c.num("seed"))))
 	nvals, threads, calls := c.num("nvals"), c.num("threads"), c.num("calls")
-	l := &lgen{r: r, N: 3 + r.Intn(4)}
+	l := &lgen{r: r, N: 2 + r.Intn(3)} // small lattices: shared vertices, touching and overlapping members are the common case
 	vals := make([]*sharedVal, 0, nvals+1)
 	var items []rtree.BulkItem
 	for i := 0; i < nvals; i++ {
 		g := l.any(4)
+		if i%2 == 0 {
+			g = l.leafOfType(2 + 3*r.Intn(2)) // polygons and multipolygons: the overlay's map-ordered collections matter most
+		}
 		if i%5 == 4 {
 			g = g.ForceCoordinatesType(geom.DimXYZM)
 		}
@@ -205,6 +208,20 @@ func purityExec(c Case) Event {
 	vals = append(vals, &sharedVal{g: geom.Geometry{}, tree: rtree.BulkLoad(items)})
 	treeIdx := len(vals) - 1
 
+	// a few "hot" calls that every goroutine repeats: the same operation on the same operands must give the same
+	// result every time (map iteration order differs on every range and in every process)
+	type hotCall struct{ op, a, b int }
+	hot := make([]hotCall, 10)
+	setOps := []int{}
+	for i, op := range pureOps {
+		switch op.name {
+		case "Union", "Intersection", "Difference", "SymmetricDifference", "UnaryUnion", "Relate", "ConvexHull", "Boundary", "Simplify":
+			setOps = append(setOps, i)
+		}
+	}
+	for i := range hot {
+		hot[i] = hotCall{setOps[r.Intn(len(setOps))], r.Intn(nvals), r.Intn(nvals)}
+	}
 	bufs := make([][]pureEv, threads)
 	seeds := make([]int64, threads)
 	for t := range seeds {
@@ -220,6 +237,10 @@ func purityExec(c Case) Event {
 			for k := 0; k < calls; k++ {
 				op := pureOps[tr.Intn(len(pureOps))]
 				ai, bi := tr.Intn(nvals), tr.Intn(nvals)
+				if tr.Intn(2) == 0 {
+					h := hot[tr.Intn(len(hot))]
+					op, ai, bi = pureOps[h.op], h.a, h.b
+				}
 				if op.name == "RTreeSearch" {
 					bi = treeIdx
 				}
